@@ -66,6 +66,8 @@ impl Handler for Server {
         );
         let messages_part = message.split(";");
         messages_part.for_each(|message| {
+            // "a ; b" is two commands, the spaces around the separator are not part of them
+            let message = message.trim();
             match process_request(&message, &self.dbs, &mut self.client) {
                 Response::Error { msg } => {
                     log::debug!("Error: {}", msg);
